@@ -1004,6 +1004,8 @@ func (rs *RelationService) MarkDeleted(tableName string, rowID uint32) (WALBatch
 		cellID: cell.key,
 	})
 
+	rs.fs.incrLSN()
+
 	return walLogs, nil
 }
 
